@@ -117,3 +117,10 @@ VX char *p_pool_ptr(void) { return g_pool->buffer ? g_pool->buffer->ptr : (char*
 VX long p_pool_buffer_size(void) { return g_pool->buffer ? (long) g_pool->buffer->size : 0; }
 VX long p_dev_bytes(void) { return (long) reinterpret_cast<occa::modeDevice_t*>(g_fd.b)->bytesAllocated; }
 VX int p_arena_overflow(void) { return g_arena_overflow; }
+// used by the C model of modeBuffer_t::~modeBuffer_t (harness/C03/models_c03.c), which cuts the mutual recursion
+// ~modeBuffer_t -> delete slice -> ~modeMemory_t -> delete buffer out of the encoding
+VX int b_ring_empty(occa::modeBuffer_t *b) { return b->modeMemoryRing.head == 0; }
+VX void b_dtor_tail(occa::modeBuffer_t *b) {
+  if (b->modeDevice && !b->isWrapped) b->modeDevice->bytesAllocated -= b->size;
+  b->size = 0; b->isWrapped = false;
+}
